@@ -93,16 +93,21 @@ def bufLenOut (maxRel : ρ) (needed L : Nat) : Nat :=
 /-- `f32` half -/
 @[inline] def half32 : ρ := RNum.n32 (RNum.half : ρ)
 
-/-- `chunk as f32 / (0.5 * ratio as f32 + 0.5 * target as f32)` -/
-def advance32 (chunk : Nat) (ratio target : ρ) : ρ :=
-  RNum.div32 (RNum.ofNat32 chunk)
-    (RNum.add32 (RNum.mul32 half32 (RNum.n32 ratio)) (RNum.mul32 half32 (RNum.n32 target)))
+/-- (after the `fix:` of the ramped needed-size formula)
+`chunk as f32 / ratio as f32`, the first summand of the advance -/
+def advanceBase32 (chunk : Nat) (ratio : ρ) : ρ :=
+  RNum.div32 (RNum.ofNat32 chunk) (RNum.n32 ratio)
+
+/-- `0.5 * (chunk + 1) as f32 * (1.0 / target as f32 - 1.0 / ratio as f32)`: the ramp correction -/
+def advanceRamp32 (chunk : Nat) (ratio target : ρ) : ρ :=
+  RNum.mul32 (RNum.mul32 half32 (RNum.ofNat32 (chunk + 1)))
+    (RNum.sub32 (RNum.div32 (RNum.n32 RNum.one) (RNum.n32 target)) (RNum.div32 (RNum.n32 RNum.one) (RNum.n32 ratio)))
 
 /-- `SincFixedOut::update_needed_len`:
-`(last as f32 + chunk as f32 / (0.5 r + 0.5 t) + L as f32).ceil() as usize` -/
+`(last as f32 + chunk as f32 / r as f32 + 0.5*(chunk+1) as f32*(1/t − 1/r) + L as f32).ceil() as usize` -/
 def neededSinc (last : ρ) (chunk : Nat) (ratio target : ρ) (L : Nat) : Nat :=
-  RNum.toNat (RNum.ceil (RNum.add32 (RNum.add32 (RNum.n32 last) (advance32 chunk ratio target))
-    (RNum.ofNat32 L)))
+  RNum.toNat (RNum.ceil (RNum.add32 (RNum.add32 (RNum.add32 (RNum.n32 last) (advanceBase32 chunk ratio))
+    (advanceRamp32 chunk ratio target)) (RNum.ofNat32 L)))
 
 /-- end of `FastFixedOut::process_into_buffer`:
 `(last as f32 + chunk as f32 / ratio as f32 + 8 as f32).ceil() as usize` -/
@@ -110,10 +115,11 @@ def neededFastAfter (last : ρ) (chunk : Nat) (ratio : ρ) (L : Nat) : Nat :=
   RNum.toNat (RNum.ceil (RNum.add32 (RNum.add32 (RNum.n32 last)
     (RNum.div32 (RNum.ofNat32 chunk) (RNum.n32 ratio))) (RNum.ofNat32 L)))
 
-/-- `FastFixedOut::set_resample_ratio`:
-`(last as f32 + chunk as f32 / (0.5 r + 0.5 t)).ceil() as usize + 8` -/
+/-- `FastFixedOut::set_resample_ratio` (after the two `fix:`es):
+`(last as f32 + chunk as f32 / r as f32 + 0.5*(chunk+1) as f32*(1/t − 1/r) + 8 as f32).ceil() as usize`,
+the same expression as `SincFixedOut::update_needed_len`. -/
 def neededFastSet (last : ρ) (chunk : Nat) (ratio target : ρ) (L : Nat) : Nat :=
-  RNum.toNat (RNum.ceil (RNum.add32 (RNum.n32 last) (advance32 chunk ratio target))) + L
+  neededSinc last chunk ratio target L
 
 /-- the range test of all four `set_resample_ratio` -/
 def ratioInRange (new orig maxRel : ρ) : Bool :=
